@@ -83,8 +83,19 @@ Definition ok (c : casety) : nat :=
 
 
 def rnd_pts(rng, n):
-    mode = rng.choice(['rand', 'rand', 'int', 'half', 'coincident', 'collinear', 'tiny', 'huge', 'pyint', 'npint', 'npscalar'])
+    mode = rng.choice(['rand', 'rand', 'int', 'half', 'coincident', 'collinear', 'tiny', 'huge', 'pyint', 'npint', 'npscalar',
+                       'evenly', 'elevated'])
     def rnd(s): return complex(rng.uniform(-s, s), rng.uniform(-s, s))
+    if mode == 'evenly' or (mode == 'elevated' and n < 3):
+        # evenly spaced integer control points (or all equal): the leading power-basis coefficients are EXACTLY 0
+        a = complex(rng.randint(-20, 20), rng.randint(-20, 20))
+        d = complex(rng.randint(-6, 6), rng.randint(-6, 6)) if rng.random() < 0.8 else 0j
+        return [a + k * d for k in range(n)], 'evenly'
+    if mode == 'elevated':
+        # a lower-degree integer Bezier curve degree-elevated exactly (control points multiples of n-1 apart)
+        m = n - 1
+        low = [complex(rng.randint(-9, 9), rng.randint(-9, 9)) * m for _ in range(n - 1)]
+        return [low[0]] + [(k * low[k - 1] + (m - k) * low[k]) / m for k in range(1, m)] + [low[-1]], mode
     if mode == 'pyint':         # plain Python ints: the scalar TYPE of the control points must not matter
         return [rng.randint(-30, 30) for _ in range(n)], mode
     if mode == 'npint':
@@ -136,7 +147,17 @@ def gen_rootset(rng):
     used = set()
     while sum(2 if isinstance(r, tuple) else 1 for r in roots) < deg:
         left = deg - sum(2 if isinstance(r, tuple) else 1 for r in roots)
-        kind = rng.choice(['sep', 'sep', 'sep', 'pair', 'cc', 'out'])
+        kind = rng.choice(['sep', 'sep', 'sep', 'pair', 'cc', 'out', 'straddle'])
+        if kind == 'straddle' and left >= 2:
+            # two distinct roots within isclose distance of each other, one on each side of the boundary
+            # 0 or 1 of polyroots01's condition: the inner one must survive de-duplication + filtering
+            b = Fraction(rng.choice([0, 1]))
+            if b in used: continue
+            gap = Fraction(rng.randint(1, 9), 10 ** rng.randint(6, 9))
+            used.add(b); roots += [b - gap / 2, b + gap / 2]
+            continue
+        if kind == 'straddle':
+            kind = 'sep'
         if kind == 'sep' or (kind in ('pair', 'cc') and left < 2):
             r = rng.choice(grid)
             if r in used: continue
